@@ -9,6 +9,13 @@
 //!   `lay <op> in=<shape> arg=<ints|-> az=<0|1>`   → `shape=<shape> same=1` | `err`
 //!       in-place Reshape / Flatten / Squeeze / Unsqueeze: output shape and "row-major element
 //!       sequence unchanged".
+//!   `exec <op> a=<shape> b=<shape> own=<ab bits> same=<0|1>` → `reuse=<a|b|none|na>`
+//!       a one-node graph run through `Model::run` with owned (`own` bit 1) or borrowed inputs; `same=1`
+//!       feeds one value to both operands.  Which input buffer the output reuses (pointer identity)
+//!       is the executor's operand choice + the operator's in-place decision.
+//!   `cc dims=<size:stride,…> cap=<n> axis=<k> add=<m>` → `cap=<0|1>`
+//!       `Tensor::has_capacity(axis, size+add)` on an owned tensor with that layout / Vec capacity;
+//!       oracle: `Concat::run_in_place` reuses the buffer exactly when it answers 1.
 //!   `cov <names>`                                 → `missing=<names>` (in-place-capable operators found in the
 //!       source by translate/in_place_ops.py that the harness did not exercise).
 //! Oracle-only requests (`#ip …`, not compared with the model): for every catalogue operator that
@@ -426,6 +433,178 @@ fn transform_case(cx: &mut Ctx, rng: &mut Rng, case_seed: u64) {
     cx.out.case(&req, res_class(&base), fails.first().map(|s| s.as_str()), matches!(base, Ok(Ok(_))));
 }
 
+/// One-node model `y = op(a, b)` (or `op(a, a)`), loaded through the public loader.
+fn exec_model(op: &str, int: bool, same: bool) -> rten::Model {
+    use onnx_enc::{dt, Graph, Node, ValueInfo};
+    let ty = if int { dt::INT32 } else { dt::FLOAT };
+    let ins: Vec<&str> = if same { vec!["a", "a"] } else { vec!["a", "b"] };
+    let mut inputs = vec![ValueInfo::new("a", ty, None)];
+    if !same {
+        inputs.push(ValueInfo::new("b", ty, None));
+    }
+    let g = Graph {
+        nodes: vec![Node::new(op, "n", &ins, &["y"])],
+        inputs,
+        outputs: vec![ValueInfo::new("y", ty, None)],
+        ..Default::default()
+    };
+    rten::ModelOptions::with_all_ops().load(g.into_model_bytes(21)).expect("exec model loads")
+}
+
+const EXEC_OPS: [(&str, bool); 9] = [
+    ("Add", false),
+    ("Mul", false),
+    ("Sub", false),
+    ("Div", false),
+    ("Pow", false),
+    ("And", true),
+    ("Or", true),
+    ("Equal", true),
+    ("Less", false),
+];
+
+fn exec_case(cx: &mut Ctx, models: &mut std::collections::HashMap<(usize, bool), rten::Model>, rng: &mut Rng) {
+    let k = rng.usize_below(EXEC_OPS.len());
+    let (opname, int) = EXEC_OPS[k];
+    let same = rng.chance(1, 8);
+    let (a, mut b) = bpair(rng);
+    if same {
+        b = a.clone();
+    }
+    let own_a = rng.chance(3, 4);
+    let own_b = rng.chance(3, 4);
+    let mk = |rng: &mut Rng, s: &[usize]| -> Value {
+        if int {
+            tism(rng, s, 0, 3)
+        } else {
+            tfi(rng, s, 1, 4)
+        }
+    };
+    let va = mk(rng, &a);
+    let vb = mk(rng, &b);
+    let base = {
+        let case = Case { name: "x", onnx: opname, domain: "", attrs: vec![], inputs: vec![Some(va.clone()), Some(if same { va.clone() } else { vb.clone() })], n_out: 1, data_inputs: vec![] };
+        let op = cx.cache.get(&case).expect("op loads");
+        run_views(&*op, &case.inputs, 1)
+    };
+    let model = models.entry((k, same)).or_insert_with(|| exec_model(opname, int, same));
+    let req = format!("exec {opname} a={} b={} own={}{} same={}", shp(&a), shp(&b), own_a as u8, own_b as u8, same as u8);
+    let (pa, pb) = (data_ptr(&va), data_ptr(&vb));
+    let r = hcommon::catch(|| {
+        let mut ins: Vec<(rten::NodeId, rten::ValueOrView)> = vec![];
+        let ida = model.node_id("a").unwrap();
+        let (va2, vb2) = (va.clone(), vb.clone());
+        // clones have fresh buffers: record *their* pointers
+        let (qa, qb) = (data_ptr(&va2), data_ptr(&vb2));
+        if own_a {
+            ins.push((ida, va2.into()));
+        } else {
+            ins.push((ida, rten::ValueOrView::View((&va).into())));
+        }
+        if !same {
+            let idb = model.node_id("b").unwrap();
+            if own_b {
+                ins.push((idb, vb2.into()));
+            } else {
+                ins.push((idb, rten::ValueOrView::View((&vb).into())));
+            }
+        }
+        let out = model.run(ins, &[model.node_id("y").unwrap()], None).map_err(|e| format!("{e}"))?;
+        let o = out.into_iter().next().unwrap();
+        Ok::<_, String>((data_ptr(&o), qa, qb, canon(&o)))
+    });
+    let _ = (pa, pb);
+    let (ans, fail) = match r {
+        Ok(Ok((po, qa, qb, c))) => {
+            let fail = compare(&base, &Ok(Ok(vec![c.clone()])), "Model::run vs Operator::run");
+            let ans = if c.bits.is_empty() {
+                "reuse=na".to_string()
+            } else if own_a && po == qa {
+                "reuse=a".to_string()
+            } else if !same && own_b && po == qb {
+                "reuse=b".to_string()
+            } else {
+                "reuse=none".to_string()
+            };
+            (ans, fail)
+        }
+        Ok(Err(_)) => ("reuse=na".to_string(), None),
+        Err(m) => (format!("panic {m}"), Some("Model::run panicked".to_string())),
+    };
+    cx.out.bucket(&format!("exec:{opname}:{ans}"));
+    cx.out.case(&req, &ans, fail.as_deref(), ans == "reuse=a" || ans == "reuse=b");
+}
+
+/// Concat in place: capacity decision (`has_capacity`) vs buffer reuse.
+fn cc_case(cx: &mut Ctx, rng: &mut Rng) {
+    let sh = rshape(rng, 3, 1);
+    let n: usize = sh.iter().product();
+    let ax = rng.usize_below(sh.len());
+    let add = rng.usize_below(3);
+    let var = *rng.pick(&[Var::Contig, Var::VecCap, Var::Permuted, Var::Strided, Var::ColStep, Var::RowStep, Var::Transposed]);
+    let base_t = Tensor::from_data(&sh, (0..n as i32).collect::<Vec<i32>>());
+    // rebuild the variant on a Vec whose capacity we control
+    let t0 = variant_t(&base_t, var, rng);
+    let strides: Vec<usize> = t0.strides().to_vec();
+    let extra = *rng.pick(&[0usize, 0, 1, 2, 5, 16, 64]);
+    let len0 = if n == 0 { 0 } else { sh.iter().zip(&strides).map(|(&s, &st)| (s - 1) * st).sum::<usize>() + 1 };
+    let mut data: Vec<i32> = Vec::with_capacity(len0 + extra);
+    data.resize(len0, -1);
+    {
+        let mut idx = vec![0usize; sh.len()];
+        for x in base_t.iter() {
+            let off: usize = idx.iter().zip(&strides).map(|(&i, &s)| i * s).sum();
+            data[off] = *x;
+            for d in (0..sh.len()).rev() {
+                idx[d] += 1;
+                if idx[d] < sh[d] {
+                    break;
+                }
+                idx[d] = 0;
+            }
+        }
+    }
+    let cap = data.capacity();
+    let Ok(t) = Tensor::from_data_with_strides(&sh, data, &strides) else { return };
+    let new_size = sh[ax] + add;
+    let req = format!(
+        "cc dims={} cap={cap} axis={ax} add={add}",
+        hcommon::join(sh.iter().zip(&strides).map(|(a, b)| format!("{a}:{b}")), ",")
+    );
+    let has = hcommon::catch(|| t.has_capacity(ax, new_size));
+    let mut other_sh = sh.clone();
+    other_sh[ax] = add;
+    let other: Value = Tensor::from_data(&other_sh, vec![7i32; other_sh.iter().product()]).into();
+    let owned: Value = t.into();
+    let p0 = data_ptr(&owned);
+    let case = Case { name: "cc", onnx: "Concat", domain: "", attrs: vec![("axis".to_string(), onnx_enc::Attr::Int(ax as i64))], inputs: vec![Some(owned.clone()), Some(other.clone())], n_out: 1, data_inputs: vec![] };
+    let op = cx.cache.get(&case).expect("concat loads");
+    let base = run_views(&*op, &case.inputs, 1);
+    let mut reused = None;
+    let r: RunRes = hcommon::catch(|| {
+        let vs: Vec<Option<ValueView>> = vec![None, Some((&other).into())];
+        run_op_in_place(&*op, vec![(0, owned)], &vs, 1).map(|o| {
+            reused = Some(data_ptr(&o[0]) == p0);
+            o.iter().map(canon).collect()
+        })
+    });
+    let (ans, mut fail) = match &has {
+        Ok(h) => (format!("cap={}", *h as u8), None),
+        Err(m) => (format!("panic {m}"), None),
+    };
+    if let (Ok(h), Some(re)) = (&has, reused) {
+        let out_n: usize = sh.iter().product::<usize>() / sh[ax].max(1) * new_size;
+        if *h != re && out_n > 0 && n > 0 {
+            fail = Some(format!("has_capacity = {h} but Concat::run_in_place buffer reuse = {re}"));
+        }
+    }
+    if fail.is_none() {
+        fail = compare(&base, &r, "Concat run_in_place vs run");
+    }
+    cx.out.bucket(&format!("cc:{var:?}:{ans}"));
+    cx.out.case(&req, &ans, fail.as_deref(), ans == "cap=1" && add > 0);
+}
+
 fn main() {
     let args = hcommon::parse_args();
     hcommon::quiet_panics();
@@ -475,6 +654,16 @@ fn run(args: &Args) {
         let mut r2 = Rng::new(cs);
         transform_case(&mut cx, &mut r2, cs);
     }
+    // (d2) executor operand choice through Model::run, (d3) Concat capacity decision
+    let mut models = std::collections::HashMap::new();
+    let n_exec = if args.thorough { 300_000 } else { 30_000 };
+    for _ in 0..n_exec {
+        exec_case(&mut cx, &mut models, &mut rng);
+    }
+    let n_cc = if args.thorough { 300_000 } else { 30_000 };
+    for _ in 0..n_cc {
+        cc_case(&mut cx, &mut rng);
+    }
     // (e) every catalogue operator that reports in-place capability or commutativity
     let per_op = if args.thorough { 30_000 } else { 3_000 };
     for name in all_names() {
@@ -487,7 +676,7 @@ fn run(args: &Args) {
     let names: Vec<String> = cx.exercised_ip.iter().cloned().collect();
     let req = format!("cov {}", names.join(","));
     // in-place-capable operators the catalogue cannot build (declared, see checks/C13.json level_note)
-    cx.out.case(&req, "missing=Attention,GroupQueryAttention,MultiHeadAttention", None, true);
+    cx.out.case(&req, "missing=GroupQueryAttention,MultiHeadAttention", None, true);
     let comm: Vec<String> = cx.exercised_comm.iter().cloned().collect();
     cx.out.note(&format!("in-place operators exercised: {}", names.join(",")));
     cx.out.note(&format!("commutative operators exercised: {}", comm.join(",")));
